@@ -90,4 +90,11 @@ theorem C05_src_accepts_exact (pad : Pad) (k : Kind) (p : Packet) (e : Event) (h
   exact ⟨hh.1, hh.2.1, Ross.decode_ok_length k p e hm,
     ((Ross.src_decodeK_agrees k (encode pad e)).1 e).2 (Ross.decode_reencode pad k p e hm)⟩
 
+/-! non-vacuity (kernel-evaluated on the **translated** decoders): a well-formed button event is decoded; the packet that crashed
+the pinned data decoder (header shorter than 6 bytes) and a data event declaring more bytes than it carries are rejected -/
+example : Src.decodeK .buttonPressed ⟨false, 0x0102, [0, 7, 0x12, 0x34, 5]⟩ = .ok (.buttonPressed 0x0102 0x1234 5) ∧
+    (match Src.decodeK .data ⟨false, 0x0101, [0, 4]⟩ with | .err _ => true | _ => false) = true ∧
+    (match Src.decodeK .data ⟨false, 1, [0, 4, 0, 2, 0xff, 0xff]⟩ with | .err _ => true | _ => false) = true ∧
+    Src.decodeK .data ⟨false, 1, [0, 4, 0, 2, 0, 2, 9, 8]⟩ = .ok (.data 1 2 2 [9, 8]) := by decide
+
 end Ross.Props
